@@ -51,11 +51,12 @@ def demo(wt, demofile):
 def run_checks(wt, checks, jobs):
     res = []
     for c in checks:
-        rc, out = sh('VERIF_REPO=%s ./check %s --jobs %s' % (wt, c, jobs), cwd='/verif', timeout=7200)
+        seed = os.environ.get('SEEDED_SEED', '1')
+        rc, out = sh('VERIF_SEED=%s VERIF_REPO=%s ./check %s --jobs %s' % (seed, wt, c, jobs), cwd='/verif', timeout=7200)
         viol = len(re.findall(r'^VIOLATION', out, re.M))
         reasons = [l.strip()[:300] for l in out.splitlines() if re.search(r'check .* failed:', l)][:2]
         summary = [l for l in out.splitlines() if l.startswith('[C')]
-        res.append({'check': c, 'tier': 'quick', 'seed': 1, 'exit': rc, 'violations': viol, 'caught': rc == 1 and viol > 0,
+        res.append({'check': c, 'tier': 'quick', 'seed': int(seed), 'exit': rc, 'violations': viol, 'caught': rc == 1 and viol > 0,
                     'first_reasons': reasons, 'summary': summary[-1] if summary else ''})
     return res
 
@@ -130,16 +131,18 @@ def rerun(sid, checks=None):
     for i in ids:
         mp = '%s/%s/meta.json' % (SEEDED, i)
         meta = json.load(open(mp))
-        cs = checks or [r['check'] for r in meta['checks_run']]
+        cs = checks or sorted(set(r['check'] for r in meta['checks_run']))
+        if os.environ.get('SEEDED_OWN'):
+            cs = [meta['property']]
         with Worktree() as wt:
             rc, out = sh('git apply %s/%s/patch.diff' % (SEEDED, i), cwd=wt)
             if rc != 0:
                 print(i, 'patch does not apply to HEAD any more:', out[-200:])
                 continue
             res = run_checks(wt, cs, jobs)
-        old = {r['check']: r for r in meta['checks_run']}
+        old = {(r['check'], r.get('seed', 1)): r for r in meta['checks_run']}
         for r in res:
-            old[r['check']] = r
+            old[(r['check'], r.get('seed', 1))] = r
         meta['checks_run'] = [old[k] for k in sorted(old)]
         meta['repo_head'] = head()
         json.dump(meta, open(mp, 'w'), indent=1)
@@ -151,7 +154,7 @@ def matrix():
     for p in sorted(glob.glob(SEEDED + '/*/meta.json')):
         m = json.load(open(p))
         rows.append('| %s | %s | %s | %s | %s |' % (m['id'], m['property'], m['what'].replace('|', '/')[:110], ', '.join(m['files_touched'])[:60],
-                    ', '.join('%s: %s' % (r['check'], 'caught (%d)' % r['violations'] if r['caught'] else 'MISSED') for r in m['checks_run'])))
+                    ', '.join('%s%s: %s' % (r['check'], '' if r.get('seed', 1) == 1 else ' seed %d' % r['seed'], 'caught (%d)' % r['violations'] if r['caught'] else 'MISSED') for r in m['checks_run'])))
     txt = '# Seeded changes and the checks that catch them\n\nEvery row: a change that compiles, passes the repository\'s own tests and breaks the named property (demonstration in the directory). Quick tier, VERIF_SEED=1, run against a scratch worktree with the patch applied.\n\n| id | property | change | files | result |\n|---|---|---|---|---|\n' + '\n'.join(rows) + '\n'
     open(SEEDED + '/MATRIX.md', 'w').write(txt)
     d = open('/verif/DESIGN.md').read()
